@@ -16,7 +16,7 @@ ESCAPES = ["\\{", "\\}", '\\"', "\\,", "\\=", "\\\\ ", "\\'e", "\\&", "\\%", "\\
 TYPES = ["article", "Book", "inproceedings", "MISC", "a", "techreport", "online", "x_y", "ärticle",
          "commentary", "Comments", "stringent", "preambles", "PhdThesis", "B2", "_"]
 FKEYS = ["author", "title", "year", "Month", "note", "url", "a", "b-c", "x_1", "Title", "editor", "pages",
-         "journal", "doi", "é", "k.k", "a:b", "+", "volume", "number", "İd", "straße", "booktitle"]
+         "journal", "doi", "é", "k.k", "a:b", "+", "volume", "number", "İd", "straße", "booktitle", "ID", "ENTRYTYPE", "id", "key", "type"]
 IDENTS = ["jan", "feb", "foo", "Bar", "x1", "a.b", "k-2", "mar", "acm", "IEEE", "s_1", "é", "a:b", "a+b"]
 KEYCH = "abcdefgXYZ0123456789_:.-/+*'!?|<>[]()&%$^~;"
 
@@ -133,7 +133,7 @@ def entry(r, opts, used):
     k = key(r, used, opts.entry_keys, opts.key_prefix)
     nf = r.choice([0, 0, 1, 1, 2, 2, 3, 5])
     if opts.big and r.random() < opts.big:
-        nf = r.randint(10, 40)
+        nf = r.randint(10, 40) if r.random() < 0.9 else r.randint(257, 300)
     if opts.field_keys is not None:
         fks = [r.choice(opts.field_keys) for _ in range(nf)]
     elif nf > len(FKEYS):
